@@ -152,7 +152,12 @@ func genC08(rc *RunCtx) (*C1, bool) {
 		sc.Reply = buf
 		sc.Chunks = nil
 		off := 0
-		if t.Choose(3) == 0 {
+		if keep > 0 && t.Choose(3) == 0 {
+			// the first k bytes of the valid reply arrive on their own (k may cover a whole header), then the flood
+			h := 1 + t.Choose(min(keep, 14))
+			sc.Chunks = append(sc.Chunks, Chunk{N: h, Gap: gapOf(t)})
+			off = h
+		} else if t.Choose(3) == 0 {
 			// a short head first (shorter than any reply), then the rest in large pieces
 			h := 1 + t.Choose(4)
 			sc.Chunks = append(sc.Chunks, Chunk{N: h, Gap: gapOf(t)})
@@ -267,6 +272,16 @@ func checkC08(rc *RunCtx, sc *C1, out *C1Outcome) {
 	}
 	var ce *modbus.ClientError
 	isClientErr := errors.As(out.Err, &ce)
+	// the read timeout may only be reported once it has elapsed
+	if isClientErr && ce.Err != nil && ce.Err.Error() == "total read timeout exceeded" {
+		due := sc.ReadTimeout
+		if sc.Kind == KSerial {
+			due += 30 * time.Millisecond
+		}
+		if out.Elapsed+time.Millisecond < due {
+			rc.Violate("premature_timeout", fmt.Sprintf("client=%s|fault=%s", sc.Kind, sc.Fault), "Do reported 'total read timeout exceeded' after %v although the read timeout is %v", out.Elapsed, sc.ReadTimeout)
+		}
+	}
 	errType := fmt.Sprintf("%T", out.Err)
 
 	// cancellation observed before the call returned?
